@@ -27,6 +27,7 @@ type Env struct {
 	resNames []string
 	oldAlloc string
 	inOld    bool
+	callee   bool // environment of a callee's contract at a call site: the caller's local names are not in scope
 }
 
 func (c *FnCtx) newEnv(fr *frame, st *State) *Env {
@@ -150,8 +151,13 @@ func (e *Env) lookupName(name string) (Term, bool) {
 	if t, ok := e.lets[name]; ok {
 		return t, true
 	}
+	if e.callee {
+		if t, ok := e.params[name]; ok {
+			return t, true
+		}
+	}
 	// an address-taken Go variable lives in a cell: its current value is the cell's content
-	if e.fr != nil && e.fr.fn != nil && !e.inOld {
+	if e.fr != nil && e.fr.fn != nil && !e.inOld && !e.callee {
 		if a := allocNamed(e.fr.fn, name); a != nil {
 			if pv, ok := e.c.vals[a].(Term); ok {
 				el := derefT(a.Type())
@@ -259,7 +265,9 @@ func (e *Env) eval(n *Node, want string) Term {
 			if p.T == nil {
 				c.fail("cannot dereference untyped term %s", n.Args[0])
 			}
-			return c.loadPtr(e.st, p, derefT(p.T))
+			r := c.loadPtr(e.st, p, derefT(p.T))
+			e.intFacts(r)
+			return r
 		}
 	case "bin":
 		return e.evalBin(n, want)
@@ -288,11 +296,17 @@ func (e *Env) eval(n *Node, want string) Term {
 	case "forall", "exists":
 		ne := e
 		var bs []string
+		var ranges []string
 		for _, b := range n.Binders {
 			gt := e.resolveType(b.Type)
 			srt := c.sortOf(gt)
 			if b.Type == "int" || b.Type == "Int" {
 				srt = SInt
+			} else if srt == SInt {
+				// a bound variable of a Go integer type ranges over that type's values only
+				if lo, hi, ok := intRange(gt); ok {
+					ranges = append(ranges, fmt.Sprintf("(<= %s q_%s) (<= q_%s %s)", lo, b.Name, b.Name, hi))
+				}
 			}
 			vn := "q_" + b.Name
 			ne = ne.withBind(b.Name, Term{S: vn, Sort: srt, T: gt})
@@ -301,6 +315,24 @@ func (e *Env) eval(n *Node, want string) Term {
 		body := ne.eval(n.Args[0], SBool)
 		if body.Sort != SBool {
 			c.fail("quantifier body not Boolean: %s", n.Args[0])
+		}
+		if len(ranges) > 0 {
+			if n.Op == "forall" {
+				body.S = fmt.Sprintf("(=> (and %s) %s)", strings.Join(ranges, " "), body.S)
+			} else {
+				body.S = fmt.Sprintf("(and %s %s)", strings.Join(ranges, " "), body.S)
+			}
+		}
+		if len(n.Triggers) > 0 {
+			var pats []string
+			for _, set := range n.Triggers {
+				var ts []string
+				for _, t := range set {
+					ts = append(ts, ne.eval(t, "").S)
+				}
+				pats = append(pats, ":pattern ("+strings.Join(ts, " ")+")")
+			}
+			return Term{S: fmt.Sprintf("(%s (%s) (! %s %s))", n.Op, strings.Join(bs, " "), body.S, strings.Join(pats, " ")), Sort: SBool}
 		}
 		return Term{S: fmt.Sprintf("(%s (%s) %s)", n.Op, strings.Join(bs, " "), body.S), Sort: SBool}
 	}
@@ -526,6 +558,7 @@ func (e *Env) selField(x Term, i int) Term {
 		}
 		reg, _ := c.fieldRegion(st, i)
 		res := Term{S: fmt.Sprintf("(select %s %s)", c.get(e.st, reg), x.S), Sort: c.sortOf(ft), T: ft}
+		e.intFacts(res)
 		if strings.HasSuffix(c.get(e.st, reg), "@0") && !strings.Contains(x.S, "q_") {
 			// heap invariant of the entry state: stored references are allocated
 			switch ft.Underlying().(type) {
@@ -534,7 +567,14 @@ func (e *Env) selField(x Term, i int) Term {
 				if !c.declared[key] {
 					c.declared[key] = true
 					es := &State{alloc: "alloc@0"}
+					// only objects of the entry heap: a region still at its entry version is also read at
+					// references allocated later (fresh objects of callees that modify nothing)
+					c.tfGuard = fmt.Sprintf("(and (<= 0 %s) (< %s alloc@0))", x.S, x.S)
 					c.typeFacts(es, res, ft)
+					c.tfGuard = ""
+					if e.st.alloc != "0" { // (not in the dummy state used to resolve region names)
+						c.typeFacts(e.st, res, ft)
+					}
 				}
 			}
 		}
@@ -669,6 +709,9 @@ func (e *Env) evalCall(n *Node, want string) Term {
 		if x.Sort == SSlice {
 			return Term{S: slArr(x.S), Sort: SInt}
 		}
+		if x.Sort == SIface {
+			return Term{S: fmt.Sprintf("(if_val %s)", x.S), Sort: SInt}
+		}
 		return Term{S: x.S, Sort: SInt}
 	case "has":
 		m := e.eval(args[0], "")
@@ -700,6 +743,11 @@ func (e *Env) evalCall(n *Node, want string) Term {
 			r = slArr(x.S)
 		}
 		return Term{S: fmt.Sprintf("(and (<= 0 %s) (< %s %s))", r, r, e.st.alloc), Sort: SBool}
+	case "feq":
+		// IEEE equality on floats (Go's == on float32/float64)
+		a := e.eval(args[0], "")
+		b := e.eval(args[1], a.Sort)
+		return Term{S: fmt.Sprintf("(fp.eq %s %s)", a.S, b.S), Sort: SBool}
 	case "ite":
 		cnd := e.eval(args[0], SBool)
 		a := e.eval(args[1], want)
@@ -717,7 +765,8 @@ func (e *Env) evalCall(n *Node, want string) Term {
 		x := e.eval(args[0], "")
 		switch x.Sort {
 		case SIface:
-			return Term{S: fmt.Sprintf("(= (if_tag %s) 0)", x.S), Sort: SBool}
+			// the nil interface value, exactly as the code's "x == nil" is translated
+			return Term{S: fmt.Sprintf("(= %s (mk_Iface 0 0))", x.S), Sort: SBool}
 		case SSlice:
 			return Term{S: fmt.Sprintf("(= (sl_arr %s) 0)", x.S), Sort: SBool}
 		}
@@ -925,4 +974,24 @@ func allocNamed(fn *ssa.Function, name string) *ssa.Alloc {
 		allocCache[fn] = m
 	}
 	return m[name]
+}
+
+// intFacts: a heap value of a Go integer type lies in that type's range (type invariant of the heap).
+func (e *Env) intFacts(t Term) {
+	if t.Sort != SInt || t.T == nil || strings.Contains(t.S, "q_") {
+		return
+	}
+	if _, ok := t.T.Underlying().(*types.Basic); !ok {
+		return
+	}
+	lo, hi, ok := intRange(t.T)
+	if !ok {
+		return
+	}
+	key := "if:" + t.S
+	if e.c.declared[key] {
+		return
+	}
+	e.c.declared[key] = true
+	e.c.facts = append(e.c.facts, fmt.Sprintf("(and (<= %s %s) (<= %s %s))", lo, t.S, t.S, hi))
 }
